@@ -386,3 +386,62 @@ func c20ListenCycles(x *X) {
 func init() {
 	register(&Scenario{Prop: "C20", Name: "c20/server-listen-cycles", Quick: []Bound{{0, 0}, {1, 0}}, Thorough: []Bound{{2, 0}}, Body: c20ListenCycles, MaxSteps: 100000, BudgetQ: 25, BudgetT: 200})
 }
+
+// a peer that answers the Transport's keep-alive heartbeat late (its output is held back for one to three
+// housekeeping intervals, then arrives): calls work afterwards, and after Transport.Close and the end of the
+// server nothing the Transport started is left behind - whatever the housekeeping round did while it waited.
+func c20LateHeartbeat(x *X) {
+	lim := [][2]int{{1, 1}, {2, 2}}[x.Choose(2)]
+	late := 1 + x.Choose(3)
+	closeWhileLate := x.Choose(2) == 1 // Close while the answer is still outstanding
+	t := newTrSys(x, "C20", lim[0], lim[1])
+	if e := t.call("a", formCall); e != nil {
+		x.Fail("C20/setup-call-failed", "first call: %v", e)
+	}
+	for _, c := range t.n.conns {
+		if c.addr == "a" {
+			c.end.p.stall[1] = true
+		}
+	}
+	for i := 0; i < late; i++ {
+		vt.Advance(tTick)
+		vs.Quiesce()
+	}
+	closed := false
+	if closeWhileLate {
+		vs.GoNamed("closer", func() { t.tr.Close(); closed = true })
+		vs.Quiesce()
+	}
+	for _, c := range t.n.conns {
+		if c.addr == "a" {
+			c.end.p.unstall(1)
+		}
+	}
+	vs.Quiesce()
+	if !closeWhileLate {
+		if e := t.call("a", formCall); e != nil {
+			x.Fail("C14/call-on-live-server-failed/late-heartbeat", "a call after a heartbeat that was answered %d housekeeping intervals late failed with %v", late, e)
+		}
+		vt.Advance(tTick)
+		vs.Quiesce()
+		vs.GoNamed("closer", func() { t.tr.Close(); closed = true })
+		vs.Quiesce()
+	}
+	if !closed {
+		x.Fail("C20/close-hangs/late-heartbeat", "Transport.Close has not returned (heartbeat answered %d intervals late, Close while late: %v)", late, closeWhileLate)
+	}
+	for _, a := range []string{"a", "b"} {
+		if t.up[a] {
+			t.srv[a].Close()
+		}
+	}
+	vs.Quiesce()
+	vt.Advance(3 * tTick)
+	vs.Quiesce()
+	census(x, t.n, fmt.Sprintf("transport closed after a heartbeat answered %d housekeeping intervals late (Close while late: %v, limits %v)", late, closeWhileLate, lim))
+	x.Outcome("lim=%v late=%d closeWhileLate=%v", lim, late, closeWhileLate)
+}
+
+func init() {
+	register(&Scenario{Prop: "C20", Name: "c20/late-heartbeat-answer", Quick: []Bound{{0, 0}, {1, 0}}, Thorough: []Bound{{2, 0}}, Body: c20LateHeartbeat, MaxSteps: 200000, BudgetQ: 20})
+}
